@@ -543,4 +543,58 @@ def run(F, rep):
     from engines import rule_unique_sorted
     rule_unique_sorted(F, rep, 'C02.U1', lambda g: '/src/' in g.file, 'the library')
 
+    # ------------------------------------------------------------------ content of repeated child elements
+    rep.rule('C02.N1', 'in the parser, text taken from a child ELEMENT (XmlNode::convertToString / convertToStrippedString) is used in the iteration that reads it: it is not parked in a local that the next matching sibling '
+                       'overwrites before anything read it (elements can repeat - several <math> blocks in a test_value/reset_value/component - so "hand it over once after the loop" keeps only the last one)')
+    from engines import lost_values
+
+    def _node_text(e):
+        return any(c.get('k') == 'Call' and c.get('mc') and c.get('cls') == 'libcellml::XmlNode' and c.get('fn') in ('convertToString', 'convertToStrippedString') for c in walk(e))
+    n_v = 0
+    for g in F.funcs.values():
+        if not g.file.endswith('/parser.cpp'):
+            continue
+        reads = [c for c in g.walk() if c.get('k') == 'Call' and c.get('mc') and c.get('cls') == 'libcellml::XmlNode' and c.get('fn') in ('convertToString', 'convertToStrippedString')]
+        n_v += len(reads)
+        for a, x in lost_values(g, _node_text, self_overwrite=True):
+            rep.fail('C02.N1', '%s|%s' % (g.short.split('::')[-1], render(a)[:50]), g.where(a), '%s: the element text stored by `%s` is overwritten (line %s) before it was used: when the element occurs more than once only the last occurrence is loaded' % (
+                g.short, render(a)[:60], x.get('l')))
+        if reads:
+            rep.ok('C02.N1', '%s|%d element-text reads' % (g.short.split('::')[-1], len(reads)), g.where(reads[0]), 'each read is consumed before the next one')
+    if n_v < 8:
+        raise AnalysisBroken('C02.N1: only %d reads of element text in parser.cpp (8 confirmed)' % n_v)
+
+    # ------------------------------------------------------------------ which libxml2 getters hand text to the library
+    rep.rule('C02.X2', 'every libxml2 call through which text enters the library (a call returning xmlChar*) is one that returns the PARSED value, entities substituted: xmlGetProp / xmlGetNsProp / xmlGetNoNsProp / xmlNodeGetContent, '
+                       'or xmlNodeListGetString with inLine = 1; the "external form" getters (xmlNodeListGetString(.., 0), xmlNodeListGetRawString, xmlEncodeEntitiesReentrant ...) return & < > re-escaped, so every print/parse cycle would escape an '
+                       'attribute value once more')
+    PARSED = {'xmlGetProp', 'xmlGetNsProp', 'xmlGetNoNsProp', 'xmlNodeGetContent', 'xmlNodeGetBase', 'xmlNodeGetLang'}
+    NAMES = {'xmlBuildQName', 'xmlStrdup', 'xmlCharStrdup', 'xmlBufferContent', 'xmlBufContent'}
+    ESCAPED = {'xmlNodeListGetRawString', 'xmlEncodeEntitiesReentrant', 'xmlEncodeSpecialChars', 'xmlEncodeEntities'}
+    n_x2 = 0
+    for g in F.funcs.values():
+        if '/src/' not in g.file:
+            continue
+        for n in g.walk():
+            if n.get('k') != 'Call' or not (n.get('callee') or '').startswith('xml') or 'char *' not in (n.get('rt') or ''):
+                continue
+            cal = n['callee']
+            key = '%s|%s' % (g.short, cal)
+            if cal in NAMES:
+                continue
+            n_x2 += 1
+            if cal in PARSED:
+                rep.ok('C02.X2', key, g.where(n), 'returns the parsed value')
+            elif cal == 'xmlNodeListGetString':
+                a2 = nth_arg(n, 2)
+                while a2 is not None and a2.get('k') in ('Paren', 'Cast') and len(a2.get('c', [])) == 1:
+                    a2 = a2['c'][0]
+                rep.check(a2 is not None and a2.get('k') == 'Int' and str(a2.get('v')) == '1', 'C02.X2', key, g.where(n),
+                          '%s reads text with `%s`: with inLine = %s libxml2 returns the external form (& < > escaped again), not the parsed value' % (g.short, render(n)[:70], render(a2) if a2 is not None else '?'), 'inLine = 1: entities substituted')
+            elif cal in ESCAPED:
+                rep.fail('C02.X2', key, g.where(n), '%s reads text with %s, which returns markup characters escaped (the external form), not the parsed value' % (g.short, cal))
+            else:
+                raise AnalysisBroken('C02.X2: libxml2 text getter %s (in %s) is not in the table of getters whose escaping behaviour was confirmed' % (cal, g.short))
+    if n_x2 < 2:
+        raise AnalysisBroken('C02.X2: only %d libxml2 text getters found (xmlGetProp in XmlAttribute::value and XmlNode::attribute confirmed)' % n_x2)
 
